@@ -9,7 +9,7 @@ import re
 
 from cases import evaluate, run_corpus, resolve_py
 from common import case_line, parse_result, run_impl, run_model, cmp_model
-from gen import bound_text, sides, wellformed_bound
+from gen import bound_text, sides, wellformed_bound, pick_side
 
 LEVEL = "proof"
 
@@ -147,7 +147,7 @@ def _run_once(chk):
         bs = []
         for _ in range(rng.randint(1, 3)):
             while True:
-                l, r = rng.choice(sides(4)), rng.choice(sides(4))
+                l, r = pick_side(rng, 4), pick_side(rng, 4)
                 single = rng.random() < 0.4
                 if single:
                     if l is None:
@@ -253,6 +253,19 @@ def _run_once(chk):
                 runs.append((a, b))
         if not ok or runs != gm:
             chk.count("contract:greedy-not-runs" if ok else "contract:broken")
+        # hypothesis `GreedyTiled` of regexCut_replace_greedy_eq_spec (Props/C16Greedy.lean) on the REAL engine's two match lists:
+        # every match of RE lies inside a match of (RE)+, and every match of (RE)+ is tiled exactly by the matches of RE inside it
+        covered = all(any(g0 <= a and b <= g1 for g0, g1 in gm) for a, b in nm)
+        tiled = True
+        for g0, g1 in gm:
+            pos = g0
+            for a, b in [(a, b) for a, b in nm if g0 <= a and b <= g1]:
+                if a != pos:
+                    tiled = False
+                pos = b
+            if pos != g1:
+                tiled = False
+        chk.count("hypothesis:GreedyTiled-holds" if covered and tiled else "hypothesis:GreedyTiled-fails")
 
 
 def run(chk):
